@@ -26,7 +26,7 @@ impl Interested {
     pub fn check(length: usize) -> Result<usize, Error> {
         match length == Interested::LEN as usize {
             true => Ok(Interested::FULL_SIZE),
-            false => Err(Error::Incomplete("Interested")),
+            false => Err(Error::InvalidLength("Interested")),
         }
     }
 }
